@@ -4,6 +4,7 @@ package httpserver
 
 import (
 	"fmt"
+	"sort"
 	"strings"
 	"testing"
 
@@ -15,7 +16,7 @@ import (
 func TestVerif_C01_Router(t *testing.T) {
 	r := kit.Start(t, "C01")
 	defer r.Finish()
-	r.Rule("seeded rule sets (1-4 rules x 1-4 paths over small alphabets: host/hostRegexp, exact/prefix/regexp paths, method lists, header matchers carrying values, a regexp or both on the same key, with and without matchAllHeader, rewrite targets incl. $n groups, shadowing duplicates, unknown backends) x 40 requests each (host with/without port, absent headers, unlisted methods); plus 25% further rule sets of the same kind that have IP literals in their host vocabulary: about half of their rules carry an exact host and/or a hostRegexp written for literals (bracketed and bare IPv6, IPv4, regexps accepting either form / one form / a whole family) and three fifths of their requests address the server by literal (IPv4 or bracketed IPv6, half of them with a port); every request is served by the real mux.ServeHTTP and by an independent reference router; a run must contain requests whose value satisfies exactly one of the two conditions of a values+regexp matcher in a way that decides the entry, under matchAllHeader and without, and requests of every host form (name+port, v4, v4+port, bracketed v6, bracketed v6+port) dispatched through an exact/regexp host condition that had to accept them, and literals turned away by one; distinct = (status, decision reason, winning rule/path index, host matcher kind, rewrite mode, deciding values+regexp matcher, request host form)")
+	r.Rule("seeded rule sets (1-4 rules x 1-4 paths over small alphabets: host/hostRegexp, exact/prefix/regexp paths, method lists, header matchers carrying values, a regexp or both on the same key, with and without matchAllHeader, rewrite targets incl. $n groups, shadowing duplicates, unknown backends) x 40 requests each (host with/without port, absent headers, unlisted methods); plus 25% further rule sets of the same kind that have IP literals in their host vocabulary: about half of their rules carry an exact host and/or a hostRegexp written for literals (bracketed and bare IPv6, IPv4, regexps accepting either form / one form / a whole family) and three fifths of their requests address the server by literal (IPv4 or bracketed IPv6, half of them with a port); every request is served by the real mux.ServeHTTP and by an independent reference router; a run must contain requests whose value satisfies exactly one of the two conditions of a values+regexp matcher in a way that decides the entry, under matchAllHeader and without, and requests of every host form (name+port, v4, v4+port, bracketed v6, bracketed v6+port) dispatched through an exact/regexp host condition that had to accept them, and literals turned away by one; plus 27% further rule sets of the same kind whose method lists range over the FULL set of methods the validation accepts (GET HEAD POST PUT PATCH DELETE CONNECT OPTIONS TRACE): three quarters of their entries carry a list: a single method, all nine, all but one, or an arbitrary subset; each such rule set has one of the nine as focus method (the rule sets walk through the alphabet) which its single-method lists, its all-but-one lists and a third of its requests prefer, and contains one entry naming the focus method alone that copies another entry's path condition and stands right in front of or behind it; their requests carry each of the nine methods and one unknown method (PROPFIND); for EACH of the nine methods a run must contain a request with that method dispatched through a list naming it, through a list naming it alone, and through a list of all nine, a request with that method turned away by a list not naming it, and a request with another method turned away by the list naming it alone; distinct = (status, decision reason, winning rule/path index, host matcher kind, rewrite mode, deciding values+regexp matcher, request host form; in the full-method class also request method and the kind of method list that decided)")
 	r.Assume("a header matcher that carries both values and a regexp holds under matchAllHeader iff every configured condition holds (value listed AND regexp matches) and without matchAllHeader iff any does (the reading of \"all\"/\"any\" over the configured conditions, which is also what spec.go/mux.go document and do); request headers are single-valued; an entry may carry several path matchers; its rewritten path is judged when exactly one of them matches the request (when several match, the governing one is left open); no /.well-known/acme-challenge/ paths")
 	r.Assume("the host with the port ignored: name:port -> name and v4:port -> v4; a bracketed IPv6 literal WITHOUT a port has no port to ignore and is taken as sent, brackets included (\"[2001:db8::1]\" is matched by host \"[2001:db8::1]\" and by regexps over that text); for a bracketed literal WITH a port the reference follows net.SplitHostPort (\"[2001:db8::1]:8080\" -> \"2001:db8::1\", brackets go with the port), but since the sentence does not say whether the brackets belong to the host, such a request is judged only when reading the host as \"[2001:db8::1]\" yields the same status, backend and rewritten path (otherwise it is served, counted and not compared); unbracketed IPv6 text is not a legal Host and is not generated")
 	nSets := r.N(400, 20000)
@@ -23,12 +24,18 @@ func TestVerif_C01_Router(t *testing.T) {
 	missing := map[string]bool{"gone": true}
 	// further rule sets that have IP literals in their host vocabulary
 	nLit := r.N(100, 5000)
-	for i := 0; i < nSets+nLit; i++ {
+	// further rule sets whose method lists and requests range over all nine methods
+	nMeth := r.N(135, 6750)
+	for i := 0; i < nSets+nLit+nMeth; i++ {
 		if !r.Mine(i) {
 			continue
 		}
 		rng := r.CaseRand(i)
-		spec := genSpec(rng, genOpts{headers: true, maxRules: 4, maxPaths: 4, ipHosts: i >= nSets})
+		opts := genOpts{headers: true, maxRules: 4, maxPaths: 4, ipHosts: i >= nSets && i < nSets+nLit}
+		if i >= nSets+nLit {
+			opts.allMethods, opts.focusMethod = true, genAllMethods[(i-nSets-nLit)%len(genAllMethods)]
+		}
+		spec := genSpec(rng, opts)
 		r.Case(i, spec)
 		mapper := &recMapper{missing: missing}
 		m, err := buildMux(spec, mapper)
@@ -61,6 +68,11 @@ func TestVerif_C01_Router(t *testing.T) {
 					r.Cover("open/reqhost=" + hc + "/bracket-reading-differs")
 					continue
 				}
+			}
+			methTag := ""
+			if spec.AllMethods {
+				methTag = c01MethodClass(r, spec, &q, &want)
+				r.Cover(fmt.Sprintf("%d/%s/r%d.p%d/method=%s/%s", want.Out.Status, want.Why, want.Rule, want.PathIdx, q.Method, methTag))
 			}
 			r.Cover(fmt.Sprintf("%d/%s/r%d.p%d/%s/%s/both=%s/reqhost=%s", want.Out.Status, want.Why, want.Rule, want.PathIdx, want.HostKind, want.Rewrite, want.HdrBoth, hc))
 			r.Count("reqhost_"+hc, 1)
@@ -120,8 +132,15 @@ func TestVerif_C01_Router(t *testing.T) {
 				// the Host is an IP literal: say which kind (names keep the plain signature)
 				bad += ":reqhost=" + hc
 			}
+			if bad != "" && methTag != "" && methTag != "no-list-consulted" {
+				// full-method class, a method list was consulted: which method the request
+				// carried (other classes keep the plain signature); the kinds of lists that
+				// accepted it / turned it away go into the detail
+				bad += ":method=" + q.Method
+			}
 			if bad != "" {
 				r.Violation("router-vs-reference:"+bad+":"+want.Why, map[string]interface{}{
+					"method_lists_consulted_by_reference": methTag,
 					"spec": spec, "yaml": spec.YAML("verif"), "request": q, "real": got, "reference": want,
 				})
 			}
@@ -144,4 +163,101 @@ func TestVerif_C01_Router(t *testing.T) {
 		"reqhost_literal_rejected_by_an_earlier_host_condition"} {
 		r.Require(k, 1)
 	}
+	// the full method alphabet: every method both as the request's method and as the method a
+	// list names
+	for _, m := range genAllMethods {
+		r.Require("method_"+m+"_dispatched_through_list_naming_it", 1)
+		r.Require("method_"+m+"_dispatched_through_list_naming_it_alone", 1)
+		r.Require("method_"+m+"_dispatched_through_list_of_all_nine", 1)
+		r.Require("method_"+m+"_turned_away_by_list_not_naming_it", 1)
+		r.Require("list_naming_"+m+"_alone_turned_away_another_method", 1)
+	}
+	r.Require("unknown_method_turned_away_by_list", 1)
+}
+
+func c01ListKind(l []string) string {
+	switch len(l) {
+	case 1:
+		return "single[" + l[0] + "]"
+	case len(genAllMethods):
+		return "all-nine"
+	case len(genAllMethods) - 1:
+		return "all-but-one"
+	}
+	return "subset"
+}
+
+// c01MethodClass (full-method class only, coverage accounting and signature label, never a
+// verdict): walks the entries the reference consults for this request up to the deciding
+// one, counts which method lists accepted / turned away the request's method, and returns a
+// label for the lists that were consulted: "method-accepted-by-list=<kinds>" and/or
+// "method-turned-away-by-list=<kinds>" (kinds: single[M], all-nine, all-but-one, subset).
+func c01MethodClass(r *kit.Run, spec *gSpec, q *gReq, want *refDecision) string {
+	known := false
+	for _, m := range genAllMethods {
+		known = known || m == q.Method
+	}
+	away, acc := map[string]bool{}, map[string]bool{}
+walk:
+	for ri := range spec.Rules {
+		if ok, _ := refHostMatch(&spec.Rules[ri], q.Host); !ok {
+			continue
+		}
+		for pi := range spec.Rules[ri].Paths {
+			p := &spec.Rules[ri].Paths[pi]
+			if ok, _ := refPathMatch(p, q.Path); !ok {
+				continue
+			}
+			decides := ri == want.Rule && pi == want.PathIdx
+			if len(p.Methods) > 0 {
+				if refMethodMatch(p, q.Method) {
+					acc[c01ListKind(p.Methods)] = true
+					if decides {
+						r.Count("method_"+q.Method+"_dispatched_through_list_naming_it", 1)
+						if len(p.Methods) == 1 {
+							r.Count("method_"+q.Method+"_dispatched_through_list_naming_it_alone", 1)
+						}
+						if len(p.Methods) == len(genAllMethods) {
+							r.Count("method_"+q.Method+"_dispatched_through_list_of_all_nine", 1)
+						}
+					}
+				} else {
+					away[c01ListKind(p.Methods)] = true
+					if known {
+						r.Count("method_"+q.Method+"_turned_away_by_list_not_naming_it", 1)
+					} else {
+						r.Count("unknown_method_turned_away_by_list", 1)
+					}
+					if len(p.Methods) == 1 {
+						r.Count("list_naming_"+p.Methods[0]+"_alone_turned_away_another_method", 1)
+					}
+				}
+			}
+			if decides {
+				break walk
+			}
+		}
+	}
+	var parts []string
+	for _, x := range []struct {
+		name string
+		set  map[string]bool
+	}{{"method-accepted-by-list=", acc}, {"method-turned-away-by-list=", away}} {
+		if len(x.set) == 0 {
+			continue
+		}
+		var ks []string
+		for k := range x.set {
+			ks = append(ks, k)
+		}
+		sort.Strings(ks)
+		if len(ks) > 2 {
+			ks = append(ks[:2], "...")
+		}
+		parts = append(parts, x.name+strings.Join(ks, ","))
+	}
+	if len(parts) == 0 {
+		return "no-list-consulted"
+	}
+	return strings.Join(parts, "/")
 }
